@@ -249,6 +249,8 @@ type Stage struct {
 	BootedAt   time.Duration
 	OnBooted   func(s *Stage) // called in the boot task once objects exist, before actors start
 	EndReason  string
+	// ExtraEnv lets a family define its own environment event kinds.
+	ExtraEnv func(e world.EnvEvent) func()
 	// HarnessDriven: a harness task started in OnBooted ends the run itself.
 	HarnessDriven bool
 	CancelledT time.Duration
@@ -472,6 +474,12 @@ func (s *Stage) envAction(e world.EnvEvent) func() {
 			_ = os.Chmod(e.Path, os.FileMode(e.Value))
 		case "chown":
 			_ = os.Chown(e.Path, e.Value/100000, e.Value%100000)
+		default:
+			if s.ExtraEnv != nil {
+				if fn := s.ExtraEnv(e); fn != nil {
+					fn()
+				}
+			}
 		}
 	}
 }
